@@ -127,7 +127,6 @@ package connector
 //verif:ensures[in-place-or-fresh] has(s.connectors, connectorID) ==> base(cProcs(s, connectorID)) == old(base(cProcs(s, connectorID))) || fresh(cProcs(s, connectorID)) || isnil(cProcs(s, connectorID))
 //verif:ensures[fails-only-if-unlisted-or-store-error] old(has(s.connectors, connectorID)) && (exists x in [0, old(len(cProcs(s, connectorID)))): old(cProcs(s, connectorID)[x]) == processorID) && err != nil ==> called("(*Store).Set")
 //verif:modifies cProcs(s, connectorID)[*], cProcs(s, connectorID), s.connectors[connectorID].UpdatedAt
-//verif:loop 0 invariant niter <= len(old(cProcs(s, connectorID))) && forall m in [0, niter): old(cProcs(s, connectorID)[m]) != processorID
 
 // C14: Delete is all-or-nothing: it fails only before anything was removed; once the
 // store entry and the in-memory entry are gone it reports success (a failing plugin
